@@ -40,6 +40,17 @@ def sparseStr (n : Nat) (e : List (Nat × Nat)) : String := symsStr (sparseToSym
 
 def allOk (n : Nat) (gs : List Gate) : Bool := gs.all (gateOk n)
 
+/-- all bit strings of length n in lexicographic (most significant first) order: numpy's flat index order -/
+def allBitsMSB : Nat → List (List Bool)
+  | 0 => [[]]
+  | k + 1 => (allBitsMSB k).map (false :: ·) ++ (allBitsMSB k).map (true :: ·)
+
+def tok' (g : Gate) : String :=
+  match g with
+  | .h q => s!"h,{q}" | .x q => s!"x,{q}" | .y q => s!"y,{q}" | .z q => s!"z,{q}" | .s q => s!"s,{q}"
+  | .cx c t => s!"cx,{c},{t}" | .cy c t => s!"cy,{c},{t}" | .cz c t => s!"cz,{c},{t}"
+  | .unknown => "unknown"
+
 def handle (args : List String) : String :=
   match args with
   | ["codes"] => " ".intercalate (Generated.allCodes.map fun nc => s!"{nc.1}:{nc.2.n}:{nc.2.K}:{nc.2.d}")
@@ -150,6 +161,89 @@ def handle (args : List String) : String :=
       let arr := l.toArray
       let M : Nat → Nat → Nat → QI := fun x a b => QI.ofGInt (arr.getD (x * k * k + a * k + b) 0)
       return QI.ratStr (klLossL2 e k M) ++ " " ++ ",".intercalate ((klLossL1Radicands e k M).map QI.ratStr)
+  | ["ppauli", str0, tag] => Id.run do
+      -- parse_simple_pauli(str0, tag_circuit = (tag = "1")); "_" stands for the empty string
+      let cs : List Char := if str0 = "_" then [] else str0.toList
+      let fmt := fun (l : List (Nat × Nat)) => if l.isEmpty then "-" else ";".intercalate (l.map fun qs => s!"{qs.1}:{symChar qs.2}")
+      match parseSimplePauli cs with
+      | none => return "error:assert"
+      | some l =>
+          if tag = "1" then return fmt (pauliTokensCircuit l)
+          else if tag = "0" then
+            match pauliTokensTable l with
+            | some l' => return fmt l'
+            | none => return "error:KeyError"
+          else return "bad-op"
+  | ["errfull", n, d] => Id.run do
+      -- make_error_list(n, d, tag_full=True): every dense matrix, row-major, entries as exponents of i ('.' = 0)
+      let some n := n.toNat? | return "bad-op"
+      let some d := d.toNat? | return "bad-op"
+      if d ≤ 1 then return "error:assert"
+      if n > 6 then return "bad-op"
+      let bs := (allBitsMSB n).map (Bits.ofList n)
+      let expChar := fun (o : Option Nat) => match o with
+        | none => '.' | some 0 => '0' | some 1 => '1' | some 2 => '2' | some _ => '3'
+      return ";".intercalate ((errorListFull n d).map fun syms =>
+        String.ofList (bs.flatMap fun b' => bs.map fun b => expChar (denseEntry n syms b' b)))
+  | ["shift", delta, gates] => Id.run do
+      -- Circuit.shift_qubit_index_(delta) on a gate list
+      let some k := delta.toInt? | return "bad-op"
+      let some gs := parseGates? gates | return "bad-op"
+      let tok := fun (g : Gate) => let r := g.shiftInt k; ",".intercalate (r.1 :: r.2.map toString)
+      let intOut := if gs.isEmpty then "-" else ";".intercalate (gs.map tok)
+      -- for delta ≥ 0 the Nat-indexed `Gate.shift` (the one the theorems are about) must print the same
+      if k ≥ 0 then
+        let natOut := if gs.isEmpty then "-" else ";".intercalate ((gs.map (Gate.shift k.toNat)).map fun g => tok' g)
+        return if natOut = intOut then intOut else "model-inconsistent"
+      else return intOut
+  | ["varqec", name, kk] => Id.run do
+      -- VarQEC(encode, K', …).get_code(): the shifted encoder on the (logical ⊗ physical) register, rows a < K'
+      let some c := findCode name | return "bad-op"
+      let some K' := kk.toNat? | return "bad-op"
+      if !allOk c.n c.encode || K' = 0 || K' > 2 ^ c.n then return "bad-op"
+      let kl := ceilLog2 K'
+      let m := c.n + kl
+      if m > 16 then return "bad-op"
+      let w := runTab m (c.encode.map (Gate.shift kl)) (tabulate m (varqecInit c.n kl K'))
+      let rows := (List.range K').map fun a =>
+        ampsStr (ampsOf c.n fun hi => ofArray w (posOfIdx kl a + 2 ^ kl * hi))
+      return s!"{countH c.encode} " ++ "|".intercalate rows
+  | ["klval", name] => Id.run do
+      -- knill_laflamme_inner_product on make_error_list: every K×K matrix, times 2^h, from the model code words
+      let some c := findCode name | return "bad-op"
+      if !allOk c.n c.encode then return "bad-op"
+      let cw := codewordFns c
+      let us := cw.map (vecL c.n)
+      let mats := (errorList c.n c.d).map fun e =>
+        let p := MP.ofSparse e
+        let imgs := cw.map fun b => vecL c.n (pauliAct GInt.I p b)
+        ",".intercalate (us.flatMap fun u => imgs.map fun im => (dotL u im).toStr.replace "," "/")
+      return s!"{countH c.encode} " ++ ";".intercalate mats
+  | ["pqecc", str0] => Id.run do
+      match parseStrQecc str0.toList with
+      | none => return "error"
+      | some (n, K, w, d) =>
+          let ws := match w with | none => "None" | some (a, b) => let g := Nat.gcd a b; s!"{a / g}/{b / g}"
+          return s!"{n} {K} {ws} {d}"
+  | ["errlisto", n, d, ops] => Id.run do
+      let some n := n.toNat? | return "bad-op"
+      let some d := d.toNat? | return "bad-op"
+      let some os := parseSyms? ops | return "bad-op"
+      if d ≤ 1 then return "error:assert"
+      return ";".intercalate ((errorListOps n d os).map fun e => ",".intercalate (e.map fun qs => s!"{qs.1}{symChar qs.2}"))
+  | ["extend", a, b] => Id.run do
+      -- Circuit.extend_circuit / append_gate: the gate list of the first circuit followed by that of the second
+      let some ga := parseGates? a | return "bad-op"
+      let some gb := parseGates? b | return "bad-op"
+      let r := ga ++ gb
+      return if r.isEmpty then "-" else ";".intercalate (r.map tok')
+  | ["degmat", name, a] => Id.run do
+      let some c := findCode name | return "bad-op"
+      let some a := a.toNat? | return "bad-op"
+      if !allOk c.n c.encode || a ≥ c.K then return "bad-op"
+      let v := (codewordFns c).getD a (fun _ => 0)
+      let m := degeneracyGram GInt.I c.n v
+      return s!"{countH c.encode} " ++ ";".intercalate (m.map fun row => ",".intercalate (row.map fun z => z.toStr.replace "," "/"))
   | ["run", n, idx, gates] => Id.run do
       -- the state-vector model on an arbitrary gate list, from the basis state with flat index idx
       let some n := n.toNat? | return "bad-op"
